@@ -42,10 +42,13 @@ def null (n w : Nat) : Words w := List.replicate (nwords n w) 0#w
 /-- `proxy::bit_mask (bit_offset pos)` = `shifted_mask`: `1 << (pos % w)` -/
 def mask (w pos : Nat) : BitVec w := 1#w <<< (pos % w)
 
+/-- `fcppt::bit::test(value, mask)`: `(value & mask.get()) != 0` -/
+def bitTest {w : Nat} (x m : BitVec w) : Bool := (x &&& m) != 0#w
+
 /-- `proxy::operator bool`: `bit::test(array[pos / w], mask)` -/
 def get {w : Nat} (a : Words w) (i : Nat) : Bool :=
   match a[i / w]? with
-  | some x => (x &&& mask w i) != 0#w
+  | some x => bitTest x (mask w i)
   | none => false          -- unreachable for i < n on well-formed arrays (see `get_lt`)
 
 /-- `proxy::operator=(bool)` -/
